@@ -31,6 +31,8 @@ SEEDS = [
     ('condition', 'xs[@A.i + 1] > ys[j] and zs[k] = w'),
     ('predicate', '{ q in {a, b[c], @A.d} and len(e) > f }'),
     ('condition', 'max({x, y, 3, 4}) < len(ws) + @A.n'),
+    ('condition', 'x in [0 to INF] or @A.v in ![-INF to 3] or zs[i] in [1 to 5]!'),
+    ('expression', 'not (q in {1, 2, r}) implies (s in [lo to INF]! and t in xs)'),
     ('property', 'after t as A {a > 1}: (u {b = @A.a} or w) causes z {c = d} within 100 ms'),
     ('property', 'after (p as P or q): no (b1 {x = y} or b2 {y > 0}) within 1 s'),
     ('specification', '# id: p1\n# title: "T"\nglobally: (a1 {x = y} or a2 as B) causes (b1 or b2 {k = @B.k})'),
